@@ -5,6 +5,9 @@ bad=0
 for d in ${@:-seeded/C*-*}; do
   if grep -q '"retired"' $d/meta.json; then echo "$d retired"; continue; fi
   id=$(echo $d | sed 's|seeded/\(C[0-9]*\)-.*|\1|')
+  # a change written for one property but decided by another one names the deciding check in its meta.json
+  other=$(python3 -c "import json,sys; print(json.load(open('$d/meta.json')).get('evaluate_with',''))")
+  [ -n "$other" ] && id=$other
   tools/seeded.py $d $id > /tmp/seeded_eval.json 2>&1
   python3 - $d /tmp/seeded_eval.json $id <<'PY' || bad=$((bad+1))
 import json,sys
